@@ -69,6 +69,11 @@ def predict(scopes, M):
     for s in scopes:
         kind, conv, names = s["kind"], s["conv"], [n for n in s["names"] if n in M]
         if kind == "world": continue
+        if kind in ("pkgns", "ifaces"):
+            # top-level modules: a package namespace, or an interface the world names directly
+            for n in names:
+                if M[n]["rust"] == "wit_bindgen":
+                    R.append({"reason": "rust-module-shadows-runtime-crate", "ident": "wit_bindgen", "names": [n], "scope": s["owner"]})
         if kind == "pkgname":
             for n in names:
                 if M[n].get("skw") == "1":
@@ -130,9 +135,12 @@ def explain(diag, reasons):
     if code in DUP_CODES:
         for r in reasons:
             if r["reason"] == "rust-resource-member-collision" and r["ident"] in ids: return r
-    if code in ("E0405", "E0412", "E0404", "E0433"):
+    if code in ("E0405", "E0412", "E0404", "E0433", "E0425", "E0422", "E0574", "E0423"):
         for r in reasons:
-            if r["reason"] == "rust-guest-type-name" and any("Guest" in i for i in ids): return r
+            if r["reason"] == "rust-guest-type-name" and any(i.startswith("Guest") for i in ids): return r
+    if code in ("E0433", "E0432", "E0425", "E0423"):
+        for r in reasons:
+            if r["reason"] == "rust-module-shadows-runtime-crate" and mentions(diag, r["ident"]): return r
     if code == "unused_variables" or msg.startswith("unused variable"):
         for r in reasons:
             if r["reason"] == "rust-temp-shadows-param" and r["ident"] in ids: return r
@@ -401,6 +409,9 @@ def run(c):
             hist[f"{origin}:rejected:declared-expected-failure"] += 1; continue
         if r is None and "raw" in j["opts"].split(",") and any("into_bytes" in d["message"] for d in detail):
             r = {"reason": "rust-raw-strings-string-lower", "ident": "into_bytes", "names": []}
+        if r is None and "raw" in j["opts"].split(",") and first["code"] == "E0119" and \
+           any(i in ("FuturePayload", "StreamPayload") for i in first["idents"]):
+            r = {"reason": "rust-raw-strings-async-payload-impl-conflict", "ident": first["idents"][0], "names": []}
         if r is not None:
             hist[f"{origin}:rejected:{r['reason']}"] += 1
             c.spec_violation(r["reason"], "rustc rejects generated Rust bindings (identifier hygiene)",
